@@ -49,14 +49,16 @@ func GenTree(t *rapid.T, cfg TreeCfg) *Tree {
 	if forkProb < 0 {
 		forkProb = 0 // never fork: a linear chain
 	}
-	// retarget families: half of the trees follow a pacing plan by height that makes the difficulty rise
-	// (four fast blocks), fall back to the limit through an interval of long gaps that ENDS on a normally
-	// timed block at the raised difficulty, and continue with normally timed blocks
+	// retarget families: half of the trees follow a pacing plan by height that brings the difficulty near the
+	// limit, lets it fall back to exactly the limit (clamp) through an interval of long gaps that ENDS on a
+	// normally timed block at the harder target, and continues with normally timed blocks
 	var pacePlan []byte
 	if (fam == FamRetarget || fam == FamRetarget94) && rapid.Bool().Draw(t, "pacePlan") {
-		pacePlan = []byte("TTTTFFFFSSSTTTTT")
-		if n < 14 {
-			n = 14
+		// (worked out on the model: the interval 12..15 runs at a target within a factor 4/3 of the limit, is
+		// slow and ends on a normally timed block; block 16 retargets to exactly the limit; 17 is normally timed)
+		pacePlan = []byte("TTTTTSSTTTTTTSST")
+		if n < 19 {
+			n = 19
 		}
 		if forkProb > 10 {
 			forkProb = 10
